@@ -3,6 +3,9 @@ import LinOp.Generated.C14Classes
 import LinOp.Generated.C14Alloc
 /-!
 C14 — copies, conversions and rebuilds denote the same matrix with the right dtype.  Property theorems only.
+
+`cfg : Cfg` (constructor layout table + torch default dtype) is arbitrary in the general theorems, so they hold
+for every table the translator can generate from the source.
 -/
 namespace LinOp.C14
 
@@ -16,12 +19,27 @@ theorem representation_length (xs : List Op) (h : representableL xs = true) :
 /-- **`representation_tree()(*representation())` returns the same operator** — every class in the layout table,
 any nesting depth, any number of positional / differentiable-keyword arguments, any trailing extra tensors —
 provided every node is as its constructor leaves it (`normal`: normal form of the class specific argument
-normalisation, keyword arguments known to the constructor, *hidden attributes at their defaults*).
-`cfg` is arbitrary: the theorem holds for every layout table the translator can generate. -/
+normalisation, keyword arguments known to the constructor, *hidden attributes at their defaults*). -/
 theorem rebuild_flatten (cfg : Cfg) (o : Op) (hn : normal cfg o = true) (hr : representable o = true)
     (rest : List Leaf) : call cfg (tree o) (rep o ++ rest) = some o := by
   have := call_tree cfg o hn hr [] rest
   simpa [tree] using this
+
+/-- **Rebuilding with other tensors** (what every autograd Function does in forward and backward): for any list
+`ts` of as many tensors as `representation()` returns, the rebuild succeeds and yields an operator with the same
+skeleton — classes, arities, keyword names, all non-tensor arguments and flags — holding exactly `ts`, in order. -/
+theorem rebuild_any_tensors (cfg : Cfg) (o : Op) (hn : normal cfg o = true) (hr : representable o = true)
+    (ts rest : List Leaf) (hlen : ts.length = (rep o).length) :
+    ∃ o', call cfg (tree o) (ts ++ rest) = some o' ∧ skel o' = skel o ∧ rep o' = ts := by
+  have := call_any cfg o hn hr [] ts rest hlen
+  simpa [tree] using this
+
+/-- **clone / detach / to / type (double, float, half) preserve the structure** of every normal operator —
+class tree, arities, keyword names, non-tensor arguments, flags — for every nesting depth and every mode,
+for all classes whose conversion does not rewrite a dtype/device keyword (`plain`: everything except
+Identity / Zero / Cat, whose keyword rewrite is mirrored separately and tied by the correspondence). -/
+theorem conversions_preserve_structure (cfg : Cfg) (o : Op) (hn : normal cfg o = true) (hp : plain o = true) (m : Mode) :
+    ∃ o', conv cfg m o = some o' ∧ skel o' = skel o := conv_skel cfg o hn hp m
 
 /-- A constructor applied to what it stored (`cls(*_args, **_kwargs)`, the last step of every clone / detach /
 to / type / rebuild) is the identity on normal nodes. -/
@@ -34,7 +52,40 @@ Kernel's defaultdict) are the identity on their normal form. -/
 theorem normalise_idempotent (cls : String) (a : List Op) (kw : List (String × Op))
     (h : normalForm cls a kw = true) : normalise cls a kw = some (a, kw) := normalise_fix cls a kw h
 
-def genCfg (d : DT) : Cfg := ⟨LinOp.Generated.C14.layoutOf, d⟩
+/-- Being normal depends only on the skeleton, never on the tensors: replacing / casting / cloning tensors keeps
+an operator a fixed point of its constructors. -/
+theorem normal_node_depends_on_skeleton_only (cfg : Cfg) (cls : String) (a a' : List Op) (dn : List String)
+    (d d' : List Op) (nkw hid : KV) (ha : skelL a = skelL a') (hd : skelL d = skelL d')
+    (h : nodeOK cfg cls a dn d nkw hid = true) : nodeOK cfg cls a' dn d' nkw hid = true :=
+  nodeOK_congr cfg cls a a' dn d d' nkw hid ha hd h
+
+/-! ### Examples, and the defects D16 / D17 / D18 as machine-checked counterexamples -/
+
+/-- The constructor layouts of the classes used in the examples below, **as of the pinned commit**
+(Chol.upper, Zero.dtype/device only kept as attributes).  `snapshot_matches_source` ties it to today's source. -/
+def snapshot : List (String × Layout) := [
+  ("DenseLinearOperator", ⟨1, false, ["tsr"], [], false, [], []⟩),
+  ("TriangularLinearOperator", ⟨1, false, ["tensor", "upper"], [("upper", some (.bool false))], false, [], []⟩),
+  ("CholLinearOperator", ⟨1, false, ["chol", "upper"], [], false, [("upper", .bool false)], []⟩),
+  ("InterpolatedLinearOperator", ⟨5, false, ["base_linear_op", "left_interp_indices", "left_interp_values",
+      "right_interp_indices", "right_interp_values"], [], false, [], []⟩),
+  ("SumLinearOperator", ⟨0, true, [], [], true, [], []⟩),
+  ("ConstantDiagLinearOperator", ⟨1, false, ["diag_values", "diag_shape"], [("diag_shape", none)], false, [], []⟩),
+  ("PermutationLinearOperator", ⟨2, false, ["perm", "inv_perm", "validate_args"], [("validate_args", some (.bool true))], false, [], []⟩),
+  ("ZeroLinearOperator", ⟨0, true, [], [], false, [("dtype", .none), ("device", .none)], []⟩)]
+
+def genCfg (d : DT) : Cfg := ⟨fun c => (snapshot.find? (·.1 = c)).map (·.2), d⟩
+
+open LinOp.Generated.C14 in
+/-- Every snapshot layout is today's generated layout, or differs from it only in that the formerly hidden
+parameters are now forwarded as keywords (a landed fix of D16 / D17). -/
+theorem snapshot_matches_source :
+    snapshot.all (fun c =>
+      decide (layoutOf c.1 = some c.2) ||
+      (decide ((layoutOf c.1).map (fun L => (L.npos, L.vararg, L.posNames, L.hidden)) =
+          some (c.2.npos, c.2.vararg, c.2.posNames, ([] : KV))) &&
+        c.2.hidden.all (fun h => (layoutOf c.1).map (fun L => hasKey L.kwStored h.1) == some true))) = true := by
+  decide +kernel
 
 def tL (i : Nat) (dt : DT) : Op := .leaf ⟨dt, [2, 2], i, false, false⟩
 def exTri (up : Bool) : Op :=
@@ -52,13 +103,13 @@ def hidOf : Op → KV
   | _ => []
 
 /-- Non-vacuity: a three-level nesting with integer tensors, keyword arguments and a hidden attribute at its
-default satisfies the hypotheses of `rebuild_flatten` for today's generated layout table. -/
-theorem rebuild_flatten_hypotheses_satisfiable :
-    normal (genCfg .f32) exSum = true ∧ representable exSum = true ∧ (rep exSum).length = 7 := by
+default satisfies the hypotheses of `rebuild_flatten`, `rebuild_any_tensors`, `conversions_preserve_structure`. -/
+theorem hypotheses_satisfiable :
+    normal (genCfg .f32) exSum = true ∧ representable exSum = true ∧ plain exSum = true ∧ (rep exSum).length = 7 := by
   decide +kernel
 
 /-- **D16 (counterexample)**: `CholLinearOperator(R, upper=True)` is *not* reproduced by the rebuild — the result
-has `upper = False`, because `upper` never reaches `_kwargs` (today's layout table lists it as hidden). -/
+has `upper = False`, because `upper` never reaches `_kwargs` (the layout lists it as hidden). -/
 theorem rebuild_flatten_chol_upper_counterexample :
     (call (genCfg .f32) (tree (exChol true)) (rep (exChol true))).map hidOf = some [("upper", .bool false)] ∧
     hidOf (exChol true) = [("upper", .bool true)] := by
@@ -75,7 +126,7 @@ theorem rebuild_flatten_chol_partial (rest : List Leaf) :
 theorem type_casts_exactly_float (t : DT) (g : Bool) (l : Leaf) :
     (convLeaf (.type t) g l).dt = (if l.dt.isFloat then t else l.dt) ∧ (convLeaf (.type t) g l).fresh = true ∧
     (convLeaf (.type t) g l).shape = l.shape ∧ (convLeaf (.type t) g l).rg = l.rg := by
-  unfold convLeaf; cases h : l.dt.isFloat <;> simp [h]
+  unfold convLeaf; cases h : l.dt.isFloat <;> simp
 
 /-- **Index tensors are never cast** by the `to` overrides of Interpolated / Masked operators (`guard`). -/
 theorem index_tensors_not_cast (t : DT) (l : Leaf) (h : l.dt.isFloat = false) :
@@ -91,7 +142,7 @@ theorem to_casts_index_counterexample :
         [] [] [("validate_args", .bool false)] [])).map (fun o => (rep o).map (·.dt)) = some [.f64, .f64] := by
   decide +kernel
 
-/-- **D18 (partial)**: below an Interpolated operator the integer index tensors survive `to` and `type` at any
+/-- **D18 (partial)**: below an Interpolated operator the integer index tensors survive `to` and `type` at every
 nesting level of this example (Sum → Interpolated → Dense). -/
 theorem to_keeps_index_example :
     (conv (genCfg .f32) (.to .f64) exSum).map (fun o => (rep o).map (·.dt)) =
@@ -121,44 +172,6 @@ theorem zero_dtype_lost_counterexample :
 
 /-! ### Obligations on the tables generated from today's source -/
 
-open LinOp.Generated.C14 in
-/-- The translator expressed every constructor chain as a layout. -/
-theorem layouts_complete : issues = [] := by decide +kernel
-
-open LinOp.Generated.C14 in
-/-- **Constructor parameters that never reach `_args`/`_kwargs`** (and are therefore reset by every copy and
-rebuild) are exactly the reviewed ones: Chol.upper (D16), KroneckerProductTriangular.upper (D16b),
-Zero.dtype/device (D17).  A new dropped parameter breaks this obligation. -/
-theorem hidden_parameters_reviewed :
-    ∀ c ∈ classes, ∀ h ∈ c.2.hidden, (c.1, h.1) ∈
-      [("CholLinearOperator", "upper"), ("KroneckerProductTriangularLinearOperator", "upper"),
-       ("ZeroLinearOperator", "dtype"), ("ZeroLinearOperator", "device")] := by
-  decide +kernel
-
-open LinOp.Generated.C14 in
-/-- Layout sanity: stored positionals are a prefix of the signature, `*args` classes have no named stored
-positionals, consumed parameters are only the block operators' `block_dim` (normalised to −3 by a permute). -/
-theorem layouts_wellformed :
-    ∀ c ∈ classes, c.2.npos ≤ c.2.posNames.length ∧ (c.2.vararg = true → c.2.npos = 0) ∧
-      (∀ k ∈ c.2.consumed, k = "block_dim") ∧
-      (∀ k ∈ c.2.kwStored, !hasKey c.2.hidden k.1 && !c.2.consumed.contains k.1) := by
-  decide +kernel
-
-open LinOp.Generated.C14 in
-/-- The copy / conversion methods are overridden only where the model mirrors an override. -/
-theorem overrides_reviewed :
-    ∀ c ∈ overrides, ∀ m ∈ c.2, (c.1, m) ∈
-      [("CatLinearOperator", "to"), ("CatLinearOperator", "device"),
-       ("IdentityLinearOperator", "to"), ("IdentityLinearOperator", "type"), ("IdentityLinearOperator", "dtype"),
-       ("IdentityLinearOperator", "device"), ("InterpolatedLinearOperator", "to"), ("MaskedLinearOperator", "to"),
-       ("TransposePermutationLinearOperator", "type"), ("TransposePermutationLinearOperator", "dtype"),
-       ("TransposePermutationLinearOperator", "device"), ("ZeroLinearOperator", "dtype"), ("ZeroLinearOperator", "device"),
-       ("ZeroLinearOperator", "to"), ("ZeroLinearOperator", "type"),
-       ("AddedDiagLinearOperator", "evaluate_kernel"), ("MulLinearOperator", "representation"),
-       ("MulLinearOperator", "representation_tree")] := by
-  decide +kernel
-
-
 /-- Reviewed allocation sites that use torch's default dtype: index lists, scalars whose dtype is irrelevant,
 and the two `ZeroLinearOperator` sites of defect D17 (`to_dense`, `_get_indices`). -/
 def reviewedDefaultDtype : List (String × String × String) := [
@@ -177,6 +190,43 @@ every `torch.zeros/ones/eye/tensor/full/empty/randn/rand/linspace/as_tensor/…`
 index-valued (`arange`, `randperm`, integer dtype).  A new default-dtype allocation breaks this obligation. -/
 theorem no_default_dtype_float_alloc :
     ∀ s ∈ allocSites, s.hasDtype = true ∨ s.intIndex = true ∨ (s.file, s.func, s.src) ∈ reviewedDefaultDtype := by
+  decide +kernel
+
+open LinOp.Generated.C14 in
+/-- The translator expressed every constructor chain as a layout. -/
+theorem layouts_complete : issues = [] := by decide +kernel
+
+open LinOp.Generated.C14 in
+/-- **Constructor parameters that never reach `_args`/`_kwargs`** (and are therefore reset by every copy and
+rebuild) are at most the reviewed ones: Chol.upper (D16), KroneckerProductTriangular.upper (D16b),
+Zero.dtype/device (D17).  A new dropped parameter breaks this obligation. -/
+theorem hidden_parameters_reviewed :
+    ∀ c ∈ classes, ∀ h ∈ c.2.hidden, (c.1, h.1) ∈
+      [("CholLinearOperator", "upper"), ("KroneckerProductTriangularLinearOperator", "upper"),
+       ("ZeroLinearOperator", "dtype"), ("ZeroLinearOperator", "device")] := by
+  decide +kernel
+
+open LinOp.Generated.C14 in
+/-- Layout sanity: stored positionals are a prefix of the signature, `*args` classes have no named stored
+positionals, consumed parameters are only the block operators' `block_dim` (normalised to −3 by a permute). -/
+theorem layouts_wellformed :
+    ∀ c ∈ classes, c.2.npos ≤ c.2.posNames.length ∧ (c.2.vararg = true → c.2.npos = 0) ∧
+      (∀ k ∈ c.2.consumed, k = "block_dim") ∧
+      (∀ k ∈ c.2.kwStored, (!hasKey c.2.hidden k.1 && !c.2.consumed.contains k.1) = true) := by
+  decide +kernel
+
+open LinOp.Generated.C14 in
+/-- The copy / conversion methods are overridden only where the model mirrors an override. -/
+theorem overrides_reviewed :
+    ∀ c ∈ overrides, ∀ m ∈ c.2, (c.1, m) ∈
+      [("CatLinearOperator", "to"), ("CatLinearOperator", "device"),
+       ("IdentityLinearOperator", "to"), ("IdentityLinearOperator", "type"), ("IdentityLinearOperator", "dtype"),
+       ("IdentityLinearOperator", "device"), ("InterpolatedLinearOperator", "to"), ("MaskedLinearOperator", "to"),
+       ("TransposePermutationLinearOperator", "type"), ("TransposePermutationLinearOperator", "dtype"),
+       ("TransposePermutationLinearOperator", "device"), ("ZeroLinearOperator", "dtype"), ("ZeroLinearOperator", "device"),
+       ("ZeroLinearOperator", "to"), ("ZeroLinearOperator", "type"),
+       ("AddedDiagLinearOperator", "evaluate_kernel"), ("MulLinearOperator", "representation"),
+       ("MulLinearOperator", "representation_tree")] := by
   decide +kernel
 
 end LinOp.C14
